@@ -304,6 +304,9 @@ def modes_leg(ck):
     legacy = 'hostkey_size_ssh-ed25519 = 256\n'
     subjects.append(('policy-legacy-satisfied', {'servers': {(rating.HOST, 22): H['warn']}, 'files': {'policy.txt': pol_ok + legacy}}, ['--skip-rate-test', '-P', '{tmp}/policy.txt', rating.HOST]))
     subjects.append(('policy-legacy-violated', {'servers': {(rating.HOST, 22): H['warn']}, 'files': {'policy.txt': pol_bad + legacy}}, ['--skip-rate-test', '-P', '{tmp}/policy.txt', rating.HOST]))
+    # a standard audit whose connection-rate check runs (the server offers Diffie-Hellman key exchanges and accepts connections as fast as they
+    # come): its note is part of the result - of the JSON document under every level, of the text report down to the level it is printed at
+    subjects.append(('standard-rate-checked', {'servers': {(rating.HOST, 22): H['fail']}}, [rating.HOST]))
     optsets = list(itertools.product((False, True), (False, True), (False, True), ('info', 'warn', 'fail'), ('text', 'j', 'jj')))
     scs, meta = [], []
     for tag, world, tail in subjects:
@@ -316,6 +319,13 @@ def modes_leg(ck):
     for (tag, o), r in zip(meta, results):
         if o == (False, False, True, 'info', 'text'):
             ref[tag] = r
+    docs_info = {}
+    for (tag, o), r in zip(meta, results):
+        if o[3] == 'info' and o[4] in ('j', 'jj'):
+            try:
+                docs_info[(tag, o[0], o[1], o[2], o[4])] = json.loads(r.get('stdout') or '')
+            except ValueError:
+                pass
     for (tag, o), sc, r in zip(meta, scs, results):
         b, v, n, lvl, fmt = o
         ck.evaluated()
@@ -339,6 +349,13 @@ def modes_leg(ck):
                 doc = json.loads(r['stdout'])
             except ValueError:
                 ck.violation('json-not-one-document mode=%s' % tag.split('-')[0], '%s under %r: stdout is not one JSON document' % (tag, o), replay)
+                continue
+            # the level selects which lines of the text report are printed; the JSON document is the whole result under every level
+            if lvl != 'info' and (tag, b, v, n, fmt) in docs_info and doc != docs_info[(tag, b, v, n, fmt)]:
+                d0 = docs_info[(tag, b, v, n, fmt)]
+                keys = sorted(k for k in set(doc) | set(d0) if doc.get(k) != d0.get(k)) if isinstance(doc, dict) and isinstance(d0, dict) else ['(shape)']
+                ck.violation('json-document-depends-on-level mode=%s at=%s' % (tag.split('-')[0], '+'.join(keys)[:60]),
+                             '%s under %r: the JSON document differs from the one printed under -l info at %r' % (tag, o, keys), replay)
                 continue
             if tag.startswith('policy') and doc.get('passed') != tag.endswith('-satisfied'):
                 ck.violation('policy-verdict-depends-on-options %s' % _generic(o), '%s under %r: JSON says passed=%r' % (tag, o, doc.get('passed')), replay)
